@@ -200,7 +200,7 @@ func (ic instrCompiler) ProcessReceiveEtcInstr(r ir.ReceiveEtc) {
 // ProcessEtcLookupInstr compiles a EtcLookup instruction.
 func (ic instrCompiler) ProcessEtcLookupInstr(l ir.EtcLookup) {
 	if l.Idx < 0 || l.Idx >= 256 {
-		panic("Etc lookup index out of range")
+		panic(newPanic("too many values taken from a multiple value expression"))
 	}
 	ic.Emit(code.LoadEtcLookup(ic.codeReg(l.Dst), ic.codeReg(l.Etc), l.Idx))
 }
@@ -208,7 +208,7 @@ func (ic instrCompiler) ProcessEtcLookupInstr(l ir.EtcLookup) {
 // ProcessFillTableInstr compiles a FillTable instruction.
 func (ic instrCompiler) ProcessFillTableInstr(f ir.FillTable) {
 	if f.Idx < 0 || f.Idx >= 256 {
-		panic("Fill table index out of range")
+		panic(newPanic("too many items before a multiple value expression in table constructor"))
 	}
 	ic.Emit(code.FillTable(ic.codeReg(f.Dst), ic.codeReg(f.Etc), f.Idx))
 }
@@ -216,7 +216,7 @@ func (ic instrCompiler) ProcessFillTableInstr(f ir.FillTable) {
 // ProcessTruncateCloseStackInstr compiles a TruncateCloseStack instruction.
 func (ic instrCompiler) ProcessTruncateCloseStackInstr(t ir.TruncateCloseStack) {
 	if t.Height < 0 || t.Height >= 65536 {
-		panic("close stack height out of range")
+		panic(newPanic("too many to-be-closed variables"))
 	}
 	ic.Emit(code.ClTrunc(uint16(t.Height)))
 }
